@@ -124,8 +124,8 @@ def make_datasets():
     import catalog
 
     class ImgDS(KDDataset):
-        def __init__(self, n, kind):
-            super().__init__()
+        def __init__(self, n, kind, collators=None):
+            super().__init__(collators=collators)
             self.n, self.kind = n, kind
 
         def __len__(self):
@@ -309,6 +309,27 @@ def c09_stacks(quick, r):
     for n in [m for m in names if leaves[m][1] == "tensor"][:4]:
         mk = leaves[n][0]
         S.append((f"X(patchwise({n}))", (lambda mk=mk: XTransformWrapper(ImgDS(6, "tensor16"), cont["patchwise"][0](mk))), "x"))
+    # the concat dataset the InterleavedSampler builds over main + side datasets (its own worker_init_fn)
+    from kappadata.samplers.interleaved_sampler import InterleavedSampler, InterleavedSamplerConfig
+    from torch.utils.data import SequentialSampler
+
+    def interleaved(mk, k):
+        main = ModeWrapper(XTransformWrapper(ImgDS(4, k), mk()), mode="x")
+        side = ModeWrapper(XTransformWrapper(ImgDS(3, k), cont["compose"][0](mk)), mode="x")
+        s = InterleavedSampler(main_sampler=SequentialSampler(main), batch_size=2, epochs=1,
+                               configs=[InterleavedSamplerConfig(sampler=SequentialSampler(side), every_n_epochs=1)])
+        return s.dataset
+
+    # collators registered on the root dataset are re-seeded by the root's worker_init_fn
+    def with_collator(mk):
+        col = KDMixCollator(mixup_alpha=1.0, mixup_p=1.0, apply_mode="sample", lamb_mode="sample", shuffle_mode="random",
+                            dataset_mode="x", return_ctx=False)
+        return ModeWrapper(Plain(XTransformWrapper(ImgDS(8, "tensor16", collators=[col]), mk())), mode="x")
+
+    S.append(("Mode(Plain(X(noise))) + root KDMixCollator", (lambda: with_collator(leaves["KDAdditiveGaussianNoise"][0])), "collate"))
+    for n in names[:3]:
+        mk, k = leaves[n]
+        S.append((f"InterleavedConcat(X({n}),X(compose({n})))", (lambda mk=mk, k=k: interleaved(mk, k)), "concat7"))
     from kappadata.common.wrappers.sample_wrappers.imagenet_minaug_multi_view_wrapper import ImagenetMinaugMultiViewWrapper
     from kappadata.common.wrappers.sample_wrappers.mugs_multi_view_wrapper import MUGSMultiViewWrapper
     S.append(("MinaugMV", (lambda: ImagenetMinaugMultiViewWrapper(ImgDS(5, "pil32"), size=8)), "x"))
@@ -327,6 +348,9 @@ def c09_trace(tid, name, build, item, r, nreq):
         gw.perturb_globals(r.randint(0, 10 ** 6))
         base = build()
         n = 3 if item == "mode" else len(base)
+        indexed = item in ("mode", "concat7")
+        if item == "collate":
+            n = 8
         for sameseed in (False, True):
             wsa = r.randint(1, 10 ** 6)
             wsb = wsa if sameseed else wsa + 1 + r.randint(0, 1000)
@@ -335,12 +359,19 @@ def c09_trace(tid, name, build, item, r, nreq):
             for ws in (wsa, wsb):
                 c = copy.deepcopy(base)
                 gw.perturb_globals(ws)  # what the DataLoader does in a worker before calling worker_init_fn
-                c.worker_init_fn(0, batch_size=2, dataset_len=n, world_size=1, drop_last=True, updates=100000)
+                kw = dict(batch_size=2, world_size=1, drop_last=True, updates=100000)
+                if item != "concat7":  # the interleaved concat dataset passes each part's own length itself
+                    kw["dataset_len"] = n
+                c.worker_init_fn(0, **kw)
                 st0.append({p: gw.gen_state(g) for p, g in gw.walk_generators(c).items()})
                 o = []
                 for q in range(nreq):
                     i = q % n
-                    o.append(cls(gw.canon(c[i] if item == "mode" else get_item(c, item, i))))
+                    if item == "collate":
+                        val = c.collators[0]([c[(i + j) % n] for j in range(4)])
+                    else:
+                        val = c[i] if indexed else get_item(c, item, i)
+                    o.append(cls(gw.canon(val)))
                 outs.append(o)
                 st1.append({p: gw.gen_state(g) for p, g in gw.walk_generators(c).items()})
             for p in sorted(st0[0]):
